@@ -19,32 +19,42 @@ theorem startsWithWord_renderOpts (cs : List Choice) (r : List Tok) (hr : starts
   | nil => simpa [renderOpts] using hr
   | cons c cs =>
     simp only [renderOpts, List.flatMap_cons, Choice.render, Choice.tok]
-    cases c.short <;> split <;> simp [startsWithWord]
+    cases c.short <;> cases c.eq <;> split <;> simp [startsWithWord]
 
-theorem unknownLong_choice {ps : List Param} (hok : paramsOk ps = true) {c : Choice} (hc : c.ok ps) :
-    ∀ t ∈ c.render, unknownLong (optTable ps) t = false := by
-  obtain ⟨hmem, hopt, _, _⟩ := hc
-  have hT := optsOk_optTable hok
-  obtain ⟨f, hf⟩ := exists_flag hmem
-  have hfind := findLong_of_mem hT (spec_mem hf hopt)
-  simp only [specOf] at hfind
+theorem render_ne_nil (c : Choice) : c.render ≠ [] := by
+  simp only [Choice.render]
+  cases c.short <;> cases c.eq <;> split <;> simp
+
+/-- what a choice writes is neither an ambiguous abbreviation nor outside the token alphabet -/
+theorem choice_toks_fine {ps : List Param} (hok : paramsOk ps = true) {c : Choice} (hc : c.ok ps) :
+    ∀ t ∈ c.render, ambiguousTok (optTable ps) t = false ∧ Tok.isOther t = false := by
+  obtain ⟨hne, g, hres⟩ := resolve_choice hok hc
+  have hl : ambiguousTok (optTable ps) (.long c.longName) = false ∧ Tok.isOther (.long c.longName) = false := by
+    refine ⟨by simp [ambiguousTok, hres, Resolved.isAmbiguous], ?_⟩
+    cases hn : c.longName with
+    | nil => exact absurd hn hne
+    | cons a l => rfl
+  have he : ambiguousTok (optTable ps) (.eq c.longName c.w) = false ∧ Tok.isOther (.eq c.longName c.w) = false :=
+    ⟨by simp [ambiguousTok, hres, Resolved.isAmbiguous], rfl⟩
   intro t ht
   simp only [Choice.render, Choice.tok] at ht
-  cases hs : c.short <;> simp only [hs] at ht <;> split at ht <;> simp at ht
-  all_goals (first | (rcases ht with rfl | rfl) | subst ht) <;> simp [unknownLong, hfind]
+  cases hs : c.short <;> cases hq : c.eq <;> simp only [hs, hq] at ht <;> split at ht <;> simp at ht
+  all_goals (first | (rcases ht with rfl | rfl) | subst ht)
+  all_goals first | exact hl | exact he | exact ⟨rfl, rfl⟩
 
-theorem unknownLong_renderOpts {ps : List Param} (hok : paramsOk ps = true) {cs : List Choice}
-    (h : ∀ c ∈ cs, c.ok ps) : ∀ t ∈ renderOpts cs, unknownLong (optTable ps) t = false := by
+theorem ambiguousTok_renderOpts {ps : List Param} (hok : paramsOk ps = true) {cs : List Choice}
+    (h : ∀ c ∈ cs, c.ok ps) : ∀ t ∈ renderOpts cs, ambiguousTok (optTable ps) t = false ∧ Tok.isOther t = false := by
   intro t ht
   simp only [renderOpts, List.mem_flatMap] at ht
   obtain ⟨c, hc, htc⟩ := ht
-  exact unknownLong_choice hok (h c hc) t htc
+  exact choice_toks_fine hok (h c hc) t htc
 
-theorem unknownLong_renderPos (tbl : List OptSpec) (xs : List PosArg) : ∀ t ∈ renderPos xs, unknownLong tbl t = false := by
+theorem ambiguousTok_renderPos (tbl : List OptSpec) (xs : List PosArg) :
+    ∀ t ∈ renderPos xs, ambiguousTok tbl t = false ∧ Tok.isOther t = false := by
   intro t ht
   simp only [renderPos, List.mem_map] at ht
   obtain ⟨x, _, rfl⟩ := ht
-  rfl
+  exact ⟨rfl, rfl⟩
 
 /-- the positional run of a written command line is bound completely -/
 theorem bindWords_all {singles starL : List Param} (hsing : ∀ p ∈ singles, p.kind = .positional)
@@ -83,16 +93,16 @@ theorem parseCmd_roundtrip {m : Member} (hfun : m.kind = .function) (hok : param
       = some (.act (.call m.name
           (m.params.map fun p => (p.name, argFor (finalState singles starL pargs sargs (pre ++ post)) p)))) := by
   have hany : (renderOpts pre ++ (renderPos pargs ++ (renderPos sargs ++ renderOpts post))).any
-      (unknownLong (optTable m.params)) = false := by
+      (ambiguousTok (optTable m.params)) = false := by
     rw [List.any_eq_false]
     intro t ht
     simp only [List.mem_append] at ht
-    have : unknownLong (optTable m.params) t = false := by
+    have : ambiguousTok (optTable m.params) t = false := by
       rcases ht with h | h | h | h
-      · exact unknownLong_renderOpts hok hpre t h
-      · exact unknownLong_renderPos _ _ t h
-      · exact unknownLong_renderPos _ _ t h
-      · exact unknownLong_renderOpts hok hpost t h
+      · exact (ambiguousTok_renderOpts hok hpre t h).1
+      · exact (ambiguousTok_renderPos _ _ t h).1
+      · exact (ambiguousTok_renderPos _ _ t h).1
+      · exact (ambiguousTok_renderOpts hok hpost t h).1
     simp [this]
   have hfin : ∀ st : PState, st.posLeft = starL → st.extras = false →
       finish m st = some (.act (.call m.name (m.params.map fun p => (p.name, argFor st p)))) := by
@@ -127,8 +137,8 @@ theorem parseCmd_roundtrip {m : Member} (hfun : m.kind = .function) (hok : param
       cases post with
       | nil => rfl
       | cons c cs =>
-        simp only [renderOpts, List.flatMap_cons, Choice.render] at hpo
-        split at hpo <;> simp at hpo
+        simp only [renderOpts, List.flatMap_cons, List.append_eq_nil_iff] at hpo
+        exact absurd hpo.1 (render_ne_nil c)
     subst hpost'
     simp only [scanOpts, startsWithWord, Bool.false_and, bindWords, List.isEmpty_nil, if_true]
     simp only [Bool.false_eq_true, if_false]
